@@ -215,7 +215,12 @@ func (st *ex4State) start() {
 				ua, _ := to.(*net.UDPAddr)
 				st.clientTx(b, ua)
 			}
-			st.cconn.OnRead = func(d dgram, n int) { st.clientRx(append([]byte(nil), d.b[:n]...)) }
+			st.cconn.OnRead = func(d dgram, n int) {
+				if len(d.b) <= 1500 {
+					n = len(d.b) // judged as on the wire (see clientcore.go onRead)
+				}
+				st.clientRx(append([]byte(nil), d.b[:n]...))
+			}
 		}
 		st.cconn.OnReadEnter = func() {
 			if n := len(st.rx); n > 0 && st.rx[n-1].doneSeq == 0 {
@@ -223,7 +228,14 @@ func (st *ex4State) start() {
 			}
 		}
 		s.EnterSUT()
-		cl, err := nclient4.NewWithConn(cc, clientHW, nclient4.WithTimeout(st.T), nclient4.WithRetry(st.tries))
+		copts := []nclient4.ClientOpt{nclient4.WithTimeout(st.T), nclient4.WithRetry(st.tries)}
+		if t.Coin(1, 3) {
+			// a client configured with a (unicast) server address: DISCOVER / REQUEST / renewals go
+			// there; the release still goes to the lease's server
+			copts = append(copts, nclient4.WithServerAddr(&net.UDPAddr{IP: net.IPv4(10, 0, 0, byte(1+t.Choose(3))), Port: 67}))
+			s.Probe("client-with-configured-server-address")
+		}
+		cl, err := nclient4.NewWithConn(cc, clientHW, copts...)
 		s.LeaveSUT()
 		if err != nil {
 			st.newErr = err
